@@ -36,6 +36,46 @@ def compare_reader(case, ots, mfs=None, mms=None):
         pass
     return None
 
+def limit_change_cases(rng, n):
+    """implementation-only cases: the inbound limits are changed with set_config in the middle of a fragmented message"""
+    out = []
+    for i in range(n):
+        role = 'sc'[i % 2]
+        pf = lambda op, p, **kw: gen_e2.peer_frame(role, op, p, **kw)
+        sizes = [rng.choice([0, 1, 10, 50, 100, 200]) for _ in range(rng.randint(2, 4))]
+        kind = rng.choice([1, 2])
+        frames = [pf(kind if j == 0 else 0, (b'a' if kind == 1 else b'\x01') * sz, fin=(j == len(sizes) - 1)) for j, sz in enumerate(sizes)]
+        m0, m1 = rng.choice([(1000, 50), (1000, 0), (300, 120), (50, 1000), (None, 10)])
+        ops = []
+        cut = rng.randint(1, len(frames) - 1)
+        for j in range(len(frames)):
+            if j == cut:
+                ops.append('sl:%s:%s:%d' % ('none' if m1 is None else m1, rng.choice(['none', '5', '1000']), rng.randint(0, 1)))
+            ops.append('r')
+        ops += ['r', 'r']
+        rds = []
+        for fr in frames:
+            rds += ['d:' + ws.hx(fr), 'e:wb']
+        line = ws.scase_line('si%d' % i, role, ops, rds, [], [], mms=m0, mfs=None, rbs=rng.choice([0, 64, 4096]))
+        out.append('SI' + line[1:])
+    return out
+
+def mon_limit_change(case_line, trace):
+    """no panic; a message all of whose fragments arrived after the limits were lowered must respect the new limit"""
+    if 'panic' in trace:
+        return 'panic-after-set_config: lowering the inbound limits in mid-message made a call panic: %s' % trace[:80]
+    case = ws.SCase(case_line); ots = ws.parse_trace(trace)
+    cur = case.mms; fresh = False     # fresh: no fragment of the current message arrived before the change
+    for op, ot in zip(case.ops, ots):
+        if op.startswith('sl:'):
+            p = op.split(':'); cur = None if p[1] == 'none' else int(p[1]); fresh = False
+            continue
+        if op == 'r' and (ot.res.startswith('ok:T:') or ot.res.startswith('ok:B:')):
+            if fresh and cur is not None and len(ws.unhx(ot.res[5:])) > cur:
+                return 'limit-ignored-after-set_config: delivered %d bytes with max_message_size %d set before the message began' % (len(ws.unhx(ot.res[5:])), cur)
+            fresh = True
+    return None
+
 class StreamProp(E2Prop):
     """reader cases built from generated frame sequences"""
     proto_class_only = True       # C02/C05/C06/C08 name the error class (protocol / capacity / utf8), not the ProtocolError variant
@@ -122,7 +162,7 @@ class C05(StreamProp):
 
 class C06(StreamProp):
     id = 'C06'
-    impl_only_kinds = ('EP',)
+    impl_only_kinds = ('EP', 'SI')
     rule = ('(max_frame_size, max_message_size, read_buffer_size) over {0,1,2,5,125,126,1000}^2 x {0,64,4096} x fragment patterns with sizes limit-1/limit/limit+1, '
             'text with a split code point at the limit, announced lengths up to 2^64-1 with no payload; compared with the independent decoder with the same limits')
     level_text = 'frame/message bounds, capacity errors, reject-before-payload and reserve bound proved on the model for all limits and lengths < 2^64; physical heap use is a runtime fact (partial)'
@@ -167,8 +207,10 @@ class C06(StreamProp):
                 for n in (F + 1, 2**16, 2**20, 2**27, 2**32, 2**63 - 1, 2**63, 2**64 - 1):
                     hdr = bytes([0x82, (0x80 if role == 's' else 0) | 127]) + n.to_bytes(8, 'big') + (b'\x01\x02\x03\x04' if role == 's' else b'')
                     out.append(gen_streams.reader_case('l%d' % k, role, [hdr], 4, mms=M, mfs=F, rbs=rbs, end=None)); k += 1
-        return reid(out) + ['EP ep0']
+        return reid(out) + ['EP ep0'] + limit_change_cases(rng, 60 if tier == 'quick' else 600)
     def monitor(self, case_line, trace, mline):
+        if case_line.startswith('SI '):
+            return mon_limit_change(case_line, trace)
         if case_line.startswith('EP '):
             bad = [x for x in trace.split(' ') if x.endswith('=BAD')]
             return ('config-plumbing: ' + ','.join(bad) + ' does not carry the configured limits to the socket') if bad or not trace else None
@@ -333,6 +375,10 @@ class C01(E2Prop):
                 rbs = rng.choice([0, 1, 2, 5, 14, 64, 4096, 131072])
                 out.append(ws.scase_line('r%d' % k, rrole, ['r'] * (len(msgs) + 2), ['d:' + ws.hx(c) for c in chunks if c], [], [], rbs=rbs,
                                          mms=None, mfs=None)); k += 1
+        for role in 'sc':
+            for n_ in ((2**18 + 1,) if tier == 'quick' else (2**18, 2**18 + 1, 2**20 + 3)):
+                for wr in (['e:wb'], ['a:10', 'e:wb'], []):
+                    out.append(ws.scase_line('g%d' % k, role, ['wb:' + ws.hx(bytes((i * 13) & 255 for i in range(n_))), 'f', 'f', 'wt:6869', 'f'], [], wr, [], wbs=rng.choice([0, 131072]), seed=7)); k += 1
         return reid(self.corpus() + out)
     def monitor(self, case_line, trace, mline):
         case, ots = self.parse(case_line, trace)
@@ -740,12 +786,22 @@ class C07(E2Prop):
                     for tailb in (b'', b'abcdefghijkl'):
                         out.append(ws.scase_line('z', role, ['r', 'r', 'r', 'f', 'r'], ['d:' + ws.hx(hdr + tailb)], [], [], mms=1000, mfs=mfs, rbs=rng.choice([0, 7, 4096])))
         out = reid(self.corpus() + out)
+        out += limit_change_cases(rng, 80 if tier == 'quick' else 800)
+        from .. import gen_hs
+        good_req = gen_hs.request_bytes(gen_hs.REQUIRED)
+        good_resp = gen_hs.response_bytes([(b'Upgrade', b'websocket'), (b'Connection', b'Upgrade'), (b'Sec-WebSocket-Accept', gen_hs.ACCEPT_MARK)])
+        for i in range(150 if tier == 'quick' else 3000):
+            m_ = gen_hs.mutate_head(rng, good_req)
+            if rng.random() < 0.3: m_ = gen_hs.mutate_head(rng, m_)
+            out.append(gen_hs.hs_case('mq%d' % i, rng.choice(gen_hs.CALLBACKS), ['r'], gen_hs.rds_of(gen_hs.segment(rng, m_, rng.choice([1, 1, 3]))), [], []))
+            m2 = gen_hs.mutate_head(rng, good_resp)
+            out.append(gen_hs.hc_case('mr%d' % i, b'ws://example.com/', ops=['r'], rds=gen_hs.rds_of(gen_hs.segment(rng, m2, rng.choice([1, 1, 3])))))
         # handshake half: reuse the C17 generator (heads x transport outcomes) with unique ids
         hs = C17().generate(tier, rng)
         for k, c in enumerate(hs):
             f = c.split(' '); f[1] = 'hs%d' % k; out.append(' '.join(f))
         return out
-    impl_only_kinds = ('TP',)
+    impl_only_kinds = ('TP', 'SI')
     model_only_kinds = ('AC',)
     def model_monitor(self, case_line, mtrace):
         return None
